@@ -5,10 +5,14 @@ def plan(tier):
     conds = []
     conds += C.t_instr_conds("C03", tier)
     conds += C.t_upd_conds("C03", tier, kinds=range(11))
+    from vf.driver import Cond
+    for case in range(18):
+        hp, nu, nw = case // 9, (case // 3) % 3, case % 3
+        conds.append(Cond("vf.h.h_req", "h_step", case=case, timeout=300, label=f"T-req[hist={hp},unread={nu},waiting={nw}]", weight=1 + nu * nw * 3))
     return {
         "conds": conds,
         "min_classes": 150,
-        "explanation": 'C03: request status changes only waiting->onboard (one pickup event, fare credited once to the picking vehicle, at the origin), onboard->done (one drop-off event at the destination by the carrying vehicle) or waiting->cancelled; instructions never resolve or lose a request and cannot divert a vehicle carrying passengers. One-step preservation gives exactly-once over histories.',
+        "explanation": 'C03: request status changes only waiting->onboard (one pickup event, fare credited once to the picking vehicle, at the origin), onboard->done (one drop-off event at the destination by the carrying vehicle) or waiting->cancelled; instructions never resolve or lose a request and cannot divert a vehicle carrying passengers. T-req: one real admission + cancellation step (bursts: two requests expiring / arriving together) admits and cancels each request exactly once with one event each. One-step preservation gives exactly-once over histories.',
         "entry_points": ['step_simulation_ops.apply_instructions', 'step_simulation_ops.step_vehicle (VehicleState.update -> default_update -> move/charge/idle/pick_up_trip/drop_off_trip)'],
         "bounds": C.ARENA_BOUNDS + C.T_BOUNDS,
         "outside": C.T_OUTSIDE,
